@@ -64,6 +64,15 @@ def targeted(ctx, T):
     for n in ("title", "meta", "script", "style", "base", "link", "noframes", "template", "noscript", "basefont", "bgsound", "command"):
         out.append(("<head></head><%s>x</%s><p>y" % (n, n), None, False, True))
         out.append(("<head></head> <%s a=b><%s>x</%s>" % (n, n, n), None, True, True))
+    # 5. tag names with non-ASCII letters that have Unicode case mappings (the standard folds ASCII A-Z only): start and end
+    #    tags spelled differently, in HTML, SVG and MathML content
+    odd = [("a\u00c9", "a\u00e9"), ("lin\u212a", "link"), ("g\u00c0", "g\u00e0"), ("t\u0394", "t\u03b4"), ("b\u0130", "bi\u0307"),
+           ("\u00e9", "\u00c9"), ("x\u00df", "xSS"), ("foreignObject", "FOREIGNOBJECT"), ("clipPath", "clippath"), ("DIV", "div")]
+    for a_, b_ in odd:
+        for wrap in ("%s", "<svg>%s</svg>z", "<math>%s</math>z", "<svg><foreignObject>%s", "<table><tr><td>%s", "<p>%s"):
+            for st, en in ((a_, b_), (b_, a_), (a_, a_), (a_.upper(), a_.lower())):
+                out.append((wrap % ("<%s>x</%s>y" % (st, en)), rng.choice([None, None, "div", "td", "svg"]), False, True))
+                out.append((wrap % ("<%s %s=1 %s=2>x" % (st, st, en)), None, False, True))
     return out
 
 
